@@ -678,7 +678,7 @@ PROPS = {
         "extra_searches": [
             {"bin": "c07_search_layouts", "crate": "replay_net", "release": True,
              "what": "the second half of the statement, as a metamorphic exploration: a 9-record zone (SOA, NS, A, AAAA, CNAME, MX, TXT, SRV) written in "
-                     "15 552 combinations of layout choices that must not matter -- owner absolute / relative to $ORIGIN / `@` / inherited; TTL explicit / "
+                     "18 144 combinations of layout choices that must not matter -- owner absolute / relative to $ORIGIN / `@` / inherited; TTL explicit / "
                      "from $TTL / from the last stated TTL, before or after the class; class inherited; relative names in record data; tabs and runs of "
                      "blanks; trailing comments; data in parentheses, continuation lines with comments, parentheses glued to tokens and to the owner; "
                      "decimal and character escapes in owner names; blank and comment lines; CRLF; origin stated in the file or handed to the reader -- "
